@@ -244,6 +244,34 @@ theorem exactly_one_resolver_arb_received (env : Env) (a : Arb) (cs : CommitSet)
   rw [close_resolvers env a cs res height choice isLocal hpre hb hne]
   exact resolvers_in_count env cs.key cs.sets height _ _ res hb hwf (by cases isLocal <;> simp) h hm hnd
 
+/-! ## 0. Lookup errors: the theorems are about the error-free environment -/
+
+/-- the layer that models hard registry errors in `isPreimageAvailable` (used by the driver for
+    the correspondence check) coincides with `advance` when no lookup fails; `ErrInvoiceNotFound`
+    and `ErrNoInvoicesCreated` are not errors but `preimageKnown = false`. -/
+theorem advanceE_no_error (env : Env) (a : Arb) (height : Nat) (trigger : Trigger)
+    (conf : Option CommitSet) (choice : AState → Bool) (fuel : Nat) :
+    advanceE env (fun _ => false) a height trigger conf choice fuel =
+      advance env a height trigger conf choice fuel := by
+  have hf : ∀ (a : Arb), stepFails (fun _ => false) a conf = false := by
+    intro a
+    unfold stepFails lookupFails
+    cases a.state <;> cases conf <;> simp
+    cases a.resolutions <;> simp
+  induction fuel generalizing a with
+  | zero => rfl
+  | succ n ih =>
+    unfold advanceE advance
+    simp only [hf a, Bool.false_eq_true, if_false]
+    cases hstep : stateStep env a height trigger conf (choice a.state) with
+    | none => rfl
+    | some r =>
+      obtain ⟨next, out, ins⟩ := r
+      simp only []
+      split
+      · rfl
+      · rw [ih]
+
 /-! ## 2b. The chain watcher hands over the commitment that was really spent -/
 
 /-- `commit_set_names_spent_commitment`: the `CommitSet` dispatched by the chain watcher for a
